@@ -102,7 +102,7 @@ prop('C07', level='proof',
      not_decided='whole-run stepping sequence; getActivationVariables; popSymbols stack maps', trusted=GEN_TRUST + PARSE_TRUST)
 
 prop('C02', level='proof',
-     claim='Parser: every descent function (S, P, PORTS, OPORTS, ARGS, MARGS, MOREP, VALUE, VARGS, MVARGS, expected_end_or_semicolon) and ParseState::lookahead/match/matchmk and AST::mk are memory safe for every token array ending in EOF, never move the cursor past EOF or backwards, only grow the error list, return either no node or a freshly recorded node exactly as documented - with callees replaced by contracts, so every dereference of a callee result is checked against what the callee may return. Literal conversion (strToInt) reports a range error exactly for values >= 2^31-1. Scanner driver (Theo::scan, bounded stand-in): memory safe, ends the stream with one EOF token located at the last scanned token (or main:1 / the placeholder when nothing was scanned). Macro helpers: cursor clamping at the end of input; the insertion index validated at extraction time equals the one used at application time.',
+     claim='Parser: every descent function (S, P, PORTS, OPORTS, ARGS, MARGS, MOREP, VALUE, VARGS, MVARGS, expected_end_or_semicolon) and ParseState::lookahead/match/matchmk and AST::mk are memory safe for every token array ending in EOF, never move the cursor past EOF or backwards, only grow the error list, return either no node or a freshly recorded node exactly as documented - with callees replaced by contracts, so every dereference of a callee result is checked against what the callee may return. Literal conversion (strToInt) reports a range error exactly for values >= 2^31-1. Scanner driver (Theo::scan, bounded stand-in): memory safe, ends the stream with one EOF token located at the last scanned token (or main:1 / the placeholder when nothing was scanned). Macro helpers: cursor clamping at the end of input; the insertion index validated at extraction time equals the one used at application time; an insertion index that names no pattern of its macro is reported and the token defused (extract_macros, bounded).',
      note='Not decided: termination of the recursion and work bounds, leak freedom beyond "every node is recorded in all_allocated_nodes", error locations, the scanner, macro extraction/application, Theo::parse/gen drivers, dispatch* null-safety (the historical PORTS defect was repaired by fix ffe592a). Three genuine defects were repaired (known_findings.txt).',
      explanation='Contracts in contracts/parse.c, contracts/scan.c, contracts/macro.c, contracts/gen_drv.c (dispatchVoid: absent subtrees generate nothing, unknown node kinds are reported as MALFORMED_AST; gen_ast, bounded: a tree with errors generates no code and every parser error is forwarded with message and location); pre-state built by the harness; match\'s recovery loop and expected_end_or_semicolon\'s loop are closed by loop contracts.',
      not_decided='lexer, macro engine, gen_ast/gen drivers, termination', trusted=PARSE_TRUST + GEN_TRUST + SCAN_TRUST)
